@@ -778,7 +778,13 @@ def repeat_tokens(s):
         toks += ['as', hdr[2]] + with_tokens(hdr[3])
     else:
         raise ValueError(hdr)
-    return toks + block_tokens(body, force=(f in ('forever',)))
+    # `cycle` without a start value, and `repeat` alone, are followed by an optional value:
+    # the body must then start with `begin`
+    open_end = f == 'forever' or (f == 'cycle' and hdr[3] is None) or \
+        (f in ('all', 'groups', 'locations') and hdr[2] is not None and hdr[2][0] == 'cycle'
+         and hdr[2][2] is None) or \
+        (f == 'in' and hdr[3] is not None and hdr[3][0] == 'cycle' and hdr[3][2] is None)
+    return toks + block_tokens(body, force=open_end)
 
 
 SIMPLE = ('setreg', 'units', 'wait', 'break', 'get', 'assign', 'print', 'action', 'call')
